@@ -3,6 +3,7 @@
 package generator
 
 import (
+	"encoding/json"
 	"strings"
 
 	"github.com/go-openapi/spec"
@@ -80,16 +81,46 @@ func VerifC10FlatDoc() {
 	b.Responses = vOKResponses()
 	vAddOp(sw, "PUT", "/pets", a)
 	vAddOp(sw, "POST", "/pets", b)
+	noID := vBool2("operationWithoutId")
+	if noID {
+		c := &spec.Operation{}
+		c.Responses = vOKResponses()
+		vAddOp(sw, "GET", "/widgets/{id}", c)
+	}
 	ag := vAppGenerator(sw)
 	if ag == nil {
 		return
 	}
-	_, err := ag.makeCodegenApp()
+	app, err := ag.makeCodegenApp()
 	vCover("planned")
 	if err != nil {
 		return
 	}
-	doc := ag.SpecDoc.Spec() // what makeCodegenApp marshals into FlatSwaggerJSON
+	// the document makeCodegenApp marshals into FlatSwaggerJSON: symbolically the second value handed
+	// to json.MarshalIndent, natively the JSON text decoded again
+	var doc *spec.Swagger
+	if vSymbolic() {
+		d, ok := vMarshalled(1).(*spec.Swagger)
+		vAssert(ok && d != nil, "the flattened document is not marshalled from a swagger document")
+		if !ok || d == nil {
+			return
+		}
+		doc = d
+	} else {
+		doc = &spec.Swagger{}
+		raw, okRaw := vEvalGoStringExpr("`" + string(app.FlatSwaggerJSON) + "`")
+		if !okRaw {
+			panic("embedded text is not a Go string expression")
+		}
+		if uerr := json.Unmarshal([]byte(raw), doc); uerr != nil {
+			panic(uerr)
+		}
+	}
+	if noID {
+		w := doc.Paths.Paths["/widgets/{id}"]
+		vAssert(w.Get != nil && w.Get.ID == "", "the embedded document declares an operationId the input did not")
+	}
+	vAssert(vDocRefsResolve(doc), "the embedded document refers to a definition it does not contain")
 	pi := doc.Paths.Paths["/pets"]
 	la, lb := vLeafProps(doc, pi.Put, p1), vLeafProps(doc, pi.Post, p2)
 	_, okA := la["z"]
@@ -99,4 +130,45 @@ func VerifC10FlatDoc() {
 	}
 	vAssert(okA, "the embedded document no longer describes the first operation's inline body items as the input did")
 	vAssert(okB, "the embedded document no longer describes the second operation's inline body items as the input did")
+}
+
+// every schema $ref below the operations' body parameters resolves inside the document
+func vDocRefsResolve(sw *spec.Swagger) bool {
+	ok := true
+	var walk func(s *spec.Schema, depth int)
+	walk = func(s *spec.Schema, depth int) {
+		if s == nil || depth > 5 {
+			return
+		}
+		if r := s.Ref.String(); r != "" {
+			d, has := sw.Definitions[strings.TrimPrefix(r, "#/definitions/")]
+			if !has {
+				ok = false
+				return
+			}
+			walk(&d, depth+1)
+			return
+		}
+		for k := range s.Properties {
+			p := s.Properties[k]
+			walk(&p, depth+1)
+		}
+		if s.Items != nil {
+			walk(s.Items.Schema, depth+1)
+		}
+		if s.AdditionalProperties != nil {
+			walk(s.AdditionalProperties.Schema, depth+1)
+		}
+	}
+	for _, pi := range sw.Paths.Paths {
+		for _, op := range []*spec.Operation{pi.Get, pi.Put, pi.Post, pi.Delete} {
+			if op == nil {
+				continue
+			}
+			for i := range op.Parameters {
+				walk(op.Parameters[i].Schema, 0)
+			}
+		}
+	}
+	return ok
 }
